@@ -14,7 +14,14 @@ the case of a bracketed formula atom that labels no state is the known finding K
 None: Kripke.labels(state=None) documents None as "no state given".  All variants must give the same answer up to the correspondence (checked on the
 implementation alone), and every variant is also compared with the proved model run on exactly that presentation
 (the iteration orders are read back from the live object; states go through a numbering).  compute_SCCs and
-get_reachable_set_from are compared in the same way as sets of sets."""
+get_reachable_set_from are compared in the same way as sets of sets.
+Second audit round: (i) the S / S0 / R / label collections are also handed over in OTHER container types (tuple, frozenset, dict keys
+view, one-shot iterator, generator, deque; edges as lists; L an OrderedDict / defaultdict) - variant perm-varied-containers and a third
+of the renaming variants - and the worker checks that the live object stores exactly the given states / transitions / label sets;
+(j) text renaming also to bare IDENTIFIER names with a reserved spelling glued in (notq, orb, trueish, Ap, pUq, Not ...), through the parser;
+(k) fair_plan: modelcheck(K, f, F=F) under permutations, containers, state renamings (mixed unorderable types, plain objects ...),
+unreachable extensions and hash seeds, on structures with a self loop on every state (KF-C15-a cannot interfere); (l) big_plan: unreachable
+extensions of 1300-2000 states (chains, a ring, a fan), longer than the recursion limit.  (k) and (l) are variant = base comparisons."""
 from common import *
 import re
 from mccheck import *
@@ -197,6 +204,20 @@ def presentation(kd, rng, names=None, permute=False, omit_S=False, containers='l
             'back': [[e(names[s]), s] for s in sorted(names)], 'containers': containers}
 
 
+def varied_containers(rng):
+    """every collection handed to Kripke in a container type of its own (list, set, tuple, frozenset, dict keys view, one-shot
+    iterator, generator, deque; edges as tuples or lists; L a dict, an OrderedDict or a defaultdict; the label collections
+    cycle through a few types): 'the state, transition and label collections passed to Kripke' are collections, not lists"""
+    ks = W.CONTAINER_KINDS
+    return {'S': rng.choice(ks), 'S0': rng.choice(ks), 'R': rng.choice(ks), 'edge': rng.choice(['tuple', 'list']),
+            'L': rng.choice(['dict', 'dict', 'ordered', 'default']), 'labels': [rng.choice(ks) for _ in range(rng.randint(1, 4))]}
+
+
+def pick_containers(rng, p_set=0.3):
+    x = rng.random()
+    return 'set' if x < p_set else varied_containers(rng) if x < p_set + 0.35 else 'list'
+
+
 def unreachable_extension(kd, rng, aps, into_old):
     """a total extra component on new states n.. ; edges from new states into old ones only if into_old; never old -> new"""
     n = len(kd['S'])
@@ -257,10 +278,10 @@ def variants_inprocess(kd, aps, queries, rng, index=0):
     vs.append(('perm', presentation(kd, rng, permute=True), queries, None))
     vs.append(('perm-S-omitted', presentation(kd, rng, permute=True, omit_S=True), queries, None))
     vs.append(('perm-as-sets', presentation(kd, rng, permute=True, containers='set'), queries, None))
+    vs.append(('perm-varied-containers', presentation(kd, rng, permute=True, omit_S=rng.random() < 0.2, containers=varied_containers(rng)), queries, None))
     for kind in ('int', 'str', 'tuple', 'mixed'):
         nm = dict(zip(kd['S'], state_names(rng, n, kind)))
-        vs.append(('rename-' + kind, presentation(kd, rng, names=nm, permute=rng.random() < 0.5,
-                                                  containers='set' if rng.random() < 0.3 else 'list'), queries, None))
+        vs.append(('rename-' + kind, presentation(kd, rng, names=nm, permute=rng.random() < 0.5, containers=pick_containers(rng)), queries, None))
     sigma = dict(zip(aps, fresh_names(rng, len(aps), avoid=aps)))
     vs.append(('rename-atoms', presentation(kd, rng, sigma=sigma, permute=rng.random() < 0.5),
                [(lg, rename_formula(f, sigma)) for lg, f in queries], None))
@@ -286,11 +307,11 @@ def variants_inprocess(kd, aps, queries, rng, index=0):
     # appended last (the evidence sample reads variant 5): states whose printed forms coincide, plain-object states, bracketed atoms
     nm = dict(zip(kd['S'], state_names(rng, n, 'strclash')))
     vs.append(('rename-strclash', presentation(kd, rng, names=nm, permute=rng.random() < 0.5, sparse_L=rng.random() < 0.75,
-                                               containers='set' if rng.random() < 0.2 else 'list'), queries, None))
+                                               containers=pick_containers(rng, 0.2)), queries, None))
     if index % 2 == 0:                         # every second case (time budget of the quick tier; any copy of a state shows at once)
         nm = dict(zip(kd['S'], state_names(rng, n, 'obj')))
         vs.append(('rename-obj', presentation(kd, rng, names=nm, permute=rng.random() < 0.5, sparse_L=rng.random() < 0.3,
-                                              containers='set' if rng.random() < 0.3 else 'list'), queries, None))
+                                              containers=pick_containers(rng)), queries, None))
     bs = bracketed_sigma(rng, kd, aps, queries)
     if bs is not None:
         vs.append(('rename-atoms-bracketed:' + bs[1], presentation(kd, rng, sigma=bs[0], permute=rng.random() < 0.5),
@@ -321,6 +342,10 @@ def job_case(v, X):
 
 def obs_chunk(chunk):
     return W.observe_job({'cases': chunk, 'internals': True})
+
+
+def obs_chunk_plain(chunk):
+    return W.observe_job({'cases': chunk, 'internals': False})
 
 
 def run_fresh_interpreter(seed, job):
@@ -469,13 +494,46 @@ QUOTED_NAMES = [(' x', 'x '), ('x', ' x'), ('x ', 'x'), (' x y ', 'x y'), ('\tx'
                 ('\u00e9', 'e'), ('1x', '2x'), ('  ', ' '), ('x  y', 'x y'), ('x:=1', 'x:= 1'), ('x_\u03b1', 'x_\u03b2')]
 
 
-def text_with_names(f, logic, rng, sigma):
-    """hand-written concrete syntax of f with every atom a spelled as sigma[a] between double quotes"""
+def text_with_names(f, logic, rng, sigma, bare=False):
+    """hand-written concrete syntax of f with every atom a spelled as sigma[a] between double quotes (bare: as a plain
+    identifier, the way a user writes an atom whose name is one)"""
     ph = {a: 'zz%dzz' % i for i, a in enumerate(sorted(sigma))}
     t = hand_text(rename_atoms(f, ph), logic, rng)
     for a, h in ph.items():
-        t = re.sub(r'"?\b%s\b"?' % h, lambda m, a=a: '"%s"' % sigma[a], t)
+        t = re.sub(r'"?\b%s\b"?' % h, lambda m, a=a: sigma[a] if bare else '"%s"' % sigma[a], t)
     return t
+
+
+RESERVED_WORDS = ['not', 'or', 'and', 'true', 'false']          # the word spellings of the grammars' operators and constants
+RESERVED_LETTERS = ['A', 'E', 'X', 'F', 'G', 'U', 'R']
+RESERVED = set(RESERVED_WORDS) | set(RESERVED_LETTERS)
+IDENT_BASES = ['q', 'p', 'b', 'it', 'IT', 'x_1', 'q0', 'y']
+IDENT_TAILS = ['ish', 'y', 'der', 'hing', 'roid', '_', '1', '2x', 'e', 's', '_p', 'X', 'U']
+
+
+def glued_identifier(rng, other):
+    """a legal IDENTIFIER /[a-zA-Z_][a-zA-Z_0-9]*/ that has a reserved spelling of the concrete syntax (not or and true false / A E
+    X F G U R) glued to its head, its tail or its middle - usually glued to the name of the OTHER atom of the renaming (notq next
+    to q, Ap next to p, pUq next to p and q) - or that differs from one only in case; never a reserved spelling itself"""
+    for _ in range(100):
+        w = rng.choice(RESERVED_WORDS)
+        l = rng.choice(RESERVED_LETTERS)
+        k = rng.randint(0, 11)
+        nm = [w + other, w + rng.choice(IDENT_TAILS), other + w, l + other, l + rng.choice(RESERVED_LETTERS) + other, other + l + other,
+              w + rng.choice(RESERVED_WORDS), w + rng.choice(RESERVED_WORDS) + other, rng.choice([w.capitalize(), w.upper(), l.lower()]),
+              w + '_' + other, l + rng.choice(IDENT_TAILS), l + w + other][k]
+        if nm not in RESERVED and nm != other and re.match(r'^[a-zA-Z_][a-zA-Z_0-9]*$', nm):
+            return nm
+    raise RuntimeError('no glued identifier')
+
+
+def glued_identifier_pair(rng):
+    base = rng.choice(IDENT_BASES)
+    a = glued_identifier(rng, base)
+    b = base if rng.random() < 0.7 else glued_identifier(rng, base)
+    if a == b:
+        b = base
+    return (a, b)
 
 
 def text_renaming(R):
@@ -486,32 +544,202 @@ def text_renaming(R):
     rng = random.Random(R.seed + 616)
     nb = 0
     hist = {}
-    for _ in range(1200 if R.thorough else 120):
+    shapes = {}
+    nq = 1200 if R.thorough else 120
+    ng = 1200 if R.thorough else 160
+    for it in range(nq + ng):
         aps = ('p', 'q')
         kd = rand_kripke(rng, rng.randint(1, 4), aps)
-        names = rng.choice(QUOTED_NAMES)
+        bare = it >= nq                 # second part: names that ARE identifiers, written bare, with a reserved spelling glued in
+        names = glued_identifier_pair(rng) if bare else rng.choice(QUOTED_NAMES)
         sigma = dict(zip(aps, names if rng.random() < 0.5 else names[::-1]))
         kd2 = rename_atoms_kd(kd, sigma)
+        if bare:
+            for nm in names:
+                k = re.sub('|'.join(sorted(IDENT_BASES + IDENT_TAILS, key=lambda x: -len(x))), '.', nm)
+                shapes[k] = shapes.get(k, 0) + 1
         for lg, f in gen_formulas(rng, aps):
             f = flat1(f)
             try:
                 t1 = hand_text(f, lg, rng)
-                t2 = text_with_names(f, lg, rng, sigma)
+                t2 = text_with_names(f, lg, rng, sigma, bare=bare)
             except ValueError:
                 continue
             R.evaluations += 1
-            ans = [impl_mc(lg, kd_py(kd), f), impl_mc(lg, kd_py(kd), t1, as_text=True),
-                   impl_mc(lg, kd_py(kd2), rename_formula(f, sigma)), impl_mc(lg, kd_py(kd2), t2, as_text=True)]
+            # the second part mostly through ONE parser object per logic (modelcheck(..., parser=P): building a parser per call is the
+            # cost of this stream); every 8th case through modelcheck's own parser
+            ps = shared_parser(lg) if bare and it % 8 else None
+            ans = [impl_mc(lg, kd_py(kd), f), impl_mc(lg, kd_py(kd), t1, as_text=True, parser=ps),
+                   impl_mc(lg, kd_py(kd2), rename_formula(f, sigma)), impl_mc(lg, kd_py(kd2), t2, as_text=True, parser=ps)]
             hist[ans[0][0]] = hist.get(ans[0][0], 0) + 1
             if any(tuple(a) != tuple(ans[0]) for a in ans):
                 nb += 1
                 if nb <= 5:
                     R.violation('%s.modelcheck: the answer changes when the atoms are renamed consistently in K and in the formula text (%r)' % (lg, t2),
                                 {'stream': 'text renaming', 'logic': lg, 'kripke': kd_json(kd), 'formula': f, 'formula_str': fstr(f), 'sigma': sigma,
-                                 'text': t1, 'text_renamed': t2, 'answers[object, text, renamed object, renamed text]': ans})
+                                 'text': t1, 'text_renamed': t2, 'shared_parser': ps is not None, 'answers[object, text, renamed object, renamed text]': ans})
             elif ans[0][0] == 'ok' and 0 < len(ans[0][1]) < len(kd['S']):
                 R.nontriv(('text-renaming', json.dumps(kd_json(kd), sort_keys=True), lg, f, json.dumps(sigma)))
-    R.cov['text_renaming'] = {'differences': nb, 'answers': hist}
+    R.cov['text_renaming'] = {'differences': nb, 'answers': hist, 'cases_with_quoted_names': nq, 'cases_with_bare_glued_identifiers': ng,
+                              'glued_identifier_shapes(base/tail as .)': dict(sorted(shapes.items(), key=lambda kv: -kv[1])[:40])}
+
+
+# ----------------------------------------------------------------------------------------
+# fairness under renamings / orders / containers / hash seeds; large unreachable extensions  (model-free: variant = base)
+# ----------------------------------------------------------------------------------------
+def job_case_F(v, X, F):
+    j = job_case(v, X)
+    if F is not None:
+        names = {b: s for s, b in v[1]['back']}
+        j['F'] = [[names[x] for x in P] for P in F]
+    return j
+
+
+def fair_plan(R):
+    """modelcheck(K, f, F=F) under presentations: structures with a self loop on EVERY state (the coded fair set is then the same
+    whichever node an SCC yields first, so the known order-sensitivity KF-C15-a cannot interfere), 1-2 fairness constraints (sometimes
+    none: F=[]), the constraints renamed along with the states.  Variants: argument orders, set / varied containers, states renamed to
+    ints, strings, tuples, MIXED unorderable types, plain objects, states that print alike; a sub-sample in fresh interpreters under
+    the hash seeds.  -> list of cases"""
+    rng = random.Random(R.seed + 626)
+    cases = []
+    for i in range(600 if R.thorough else 70):
+        aps = ('p', 'q')
+        n = rng.randint(2, 5)
+        kd = rand_kripke(rng, n, aps)
+        kd['R'] = sorted(set(map(tuple, kd['R'])) | {(s, s) for s in kd['S']})
+        F = [sorted(rng.sample(kd['S'], rng.randint(1, n))) for _ in range(rng.choice([0, 1, 1, 1, 2, 2]))]
+        queries = gen_formulas(rng, aps)
+        X = rng.sample(kd['S'], 1)
+        vs = [('fair-base', presentation(kd, rng), queries, None),
+              ('fair-perm', presentation(kd, rng, permute=True, containers=pick_containers(rng)), queries, None)]
+        for kind in ('int', 'str', 'tuple', 'mixed', 'obj', 'strclash'):
+            nm = dict(zip(kd['S'], state_names(rng, n, kind)))
+            vs.append(('fair-rename-' + kind, presentation(kd, rng, names=nm, permute=rng.random() < 0.5, containers=pick_containers(rng)), queries, None))
+        ex = unreachable_extension(kd, rng, aps, rng.random() < 0.5)
+        ex = (ex[0], sorted(set(ex[1]) | {(s, s) for s in ex[0]}), ex[2])
+        nm = {s: s for s in list(kd['S']) + ex[0]}
+        nm.update(zip(ex[0], state_names(rng, len(ex[0]), 'mixed' if rng.random() < 0.5 else 'str')))
+        if len(set(nm.values())) == len(nm):
+            vs.append(('fair-unreachable-added', presentation(kd, rng, names=nm, extra=ex, permute=rng.random() < 0.5), queries, list(kd['S'])))
+        hv = []
+        if i < (200 if R.thorough else 25):
+            for kind in ('str', 'mixed', 'tuple'):
+                nm = dict(zip(kd['S'], state_names(rng, n, kind)))
+                hv.append(('fair-hashseed-' + kind, presentation(kd, rng, names=nm, containers='set'), queries, None))
+        cases.append({'kd': kd, 'aps': aps, 'queries': queries, 'X': X, 'F': F, 'variants': vs, 'hvariants': hv})
+    return cases
+
+
+def big_plan(R):
+    """'adding states unreachable from the queried ones' with MANY states: a small structure plus 1300-2000 new states that no old state
+    reaches - a chain leading into the old states, a ring (one huge SCC) with an exit into them, a chain of self-looping states, a chain
+    that never touches them, a fan.  Longer than the interpreter's recursion limit, so an answer that depends on the depth of a walk
+    through the new part (recursive search / SCC pass) shows.  -> list of cases"""
+    rng = random.Random(R.seed + 636)
+    cases = []
+    shapes = ['chain-into-old', 'ring-into-old', 'selfloop-chain-into-old', 'chain-apart', 'fan-into-old']
+    lim = sys.getrecursionlimit()
+    for i in range(40 if R.thorough else 8):
+        aps = ('p', 'q')
+        n = rng.randint(2, 4)
+        kd = rand_kripke(rng, n, aps)
+        shape = shapes[i % len(shapes)] if i < len(shapes) else rng.choice(shapes)
+        N = lim + rng.randint(300, 1000 if R.thorough else 500)
+        new = list(range(n, n + N))
+        edges = list(zip(new, new[1:]))
+        old = rng.choice(kd['S'])
+        if shape == 'chain-into-old':
+            edges.append((new[-1], old))
+        elif shape == 'ring-into-old':
+            edges += [(new[-1], new[0]), (new[rng.randrange(N)], old)]
+        elif shape == 'selfloop-chain-into-old':
+            edges += [(u, u) for u in new] + [(new[-1], old)]
+        elif shape == 'chain-apart':
+            edges.append((new[-1], new[-1]))
+        else:
+            edges = [(new[0], u) for u in new[1:]] + [(u, rng.choice(kd['S'])) for u in new[1:]]
+        pat = [[a for a in aps if rng.random() < 0.6] for _ in range(rng.randint(1, 5))]
+        labels = {u: pat[j % len(pat)] for j, u in enumerate(new)}
+        queries = gen_formulas(rng, aps)
+        while any(tcount(f) > 2 for _, f in queries):
+            queries = gen_formulas(rng, aps)
+        nm = {s: s for s in kd['S']}
+        style = rng.choice(['int', 'str', 'tuple'])
+        nm.update({u: u if style == 'int' else 'u%d' % u if style == 'str' else ('u', u) for u in new})
+        X = rng.sample(kd['S'], rng.randint(1, n))
+        vs = [('big-base', presentation(kd, rng), queries, None),
+              ('big-unreachable-added:' + shape, presentation(kd, rng, names=nm, extra=(new, edges, labels), permute=rng.random() < 0.5,
+                                                              containers=rng.choice(['list', 'set'])), queries, list(kd['S']))]
+        cases.append({'kd': kd, 'aps': aps, 'queries': queries, 'X': X, 'F': None, 'variants': vs, 'hvariants': [], 'shape': shape, 'added': N})
+    return cases
+
+
+def judge_variants(R, stream, cases, seeds=()):
+    """variant answer (restricted to the old states) = base answer, compute_SCCs / reachable sets likewise; c['obs'][i] / c['hobs'][i][seed]"""
+    bad = []
+    for c in cases:
+        b = c['obs'][0]
+        runs = [(v, o, v[0]) for v, o in zip(c['variants'], c['obs'])]
+        runs += [(v, o, '%s(seed %s)' % (v[0], seeds[si])) for v, os_ in zip(c['hvariants'], c.get('hobs', [])) for si, o in enumerate(os_)]
+        for (tag0, pres, qs, restrict), o, tag in runs:
+            rec = {'stream': stream, 'variant': tag, 'kripke': kd_json(c['kd']), 'F': c['F'], 'presentation': pres,
+                   'queries': [[lg, f, fstr(detuple(f))] for lg, f in qs], 'base_queries': [[lg, f, fstr(f)] for lg, f in c['queries']], 'X': c['X']}
+            if o['build'][0] != 'ok' or b['build'][0] != 'ok':
+                bad.append(('Kripke(...) fails on, or stores something else than, one presentation', dict(rec, detail={'impl_build': o['build'], 'base_build': b['build']})))
+                continue
+            R.evaluations += len(qs) + 2
+            for qi, (lg, f) in enumerate(qs):
+                a = (o['answers'][qi][0], o['answers'][qi][1])
+                ba = (b['answers'][qi][0], b['answers'][qi][1])
+                if restrict_ans(a, restrict) != ba:
+                    bad.append(('modelcheck answer%s changes with the presentation' % (' under fairness constraints' if c['F'] is not None else ''),
+                                dict(rec, detail={'logic': lg, 'formula': fstr(detuple(f)), 'this_presentation': a if len(str(a)) < 400 else str(a)[:400],
+                                                  'base_presentation': ba, 'restricted_to': restrict})))
+                elif tag0 != c['variants'][0][0] and ba[0] == 'ok' and 0 < len(ba[1]) < len(c['kd']['S']):
+                    R.nontriv((stream, json.dumps(kd_json(c['kd']), sort_keys=True), json.dumps(c['F']), lg, f))
+            scc, reach = (o['scc'][0], o['scc'][1]), (o['reach'][0], o['reach'][1])
+            if restrict_scc(scc, restrict) != (b['scc'][0], b['scc'][1]) or restrict_ans(reach, restrict) != (b['reach'][0], b['reach'][1]):
+                bad.append(('compute_SCCs / get_reachable_set_from change with the presentation',
+                            dict(rec, detail={'this_scc': str(scc)[:300], 'base_scc': b['scc'], 'this_reach': str(reach)[:300], 'base_reach': b['reach']})))
+    bad.sort(key=lambda x: (len(x[1]['presentation']['back']), json.dumps(x[1], sort_keys=True, default=str)))
+    for what, rec in bad[:8]:
+        R.violation('%s [%s] %s' % (what, rec['variant'], json.dumps(rec['detail'], default=str)[:300]), rec)
+    return len(bad)
+
+
+def fair_base_vs_model(R, cases):
+    """the base presentation of every fair case against the faithful fair model (int states in default order, as in fair_atom_renaming)"""
+    import mccheck
+    cmds, meta = [], []
+    for c in cases:
+        if c['obs'][0]['build'][0] != 'ok':
+            continue
+        for qi, (lg, f) in enumerate(c['queries']):
+            cmds.append(mccheck.model_cmd(lg, kd_py(c['kd']), f, c['F']))
+            meta.append((c, qi, lg, f))
+    outs = model_batch_parallel(cmds)
+    nb = 0
+    for (c, qi, lg, f), o in zip(meta, outs):
+        a = (c['obs'][0]['answers'][qi][0], c['obs'][0]['answers'][qi][1])
+        if a != mccheck.model_obs(o):
+            nb += 1
+            if nb <= 3:
+                R.violation('%s.modelcheck(K, f, F=F) differs from the faithful fair model on the base presentation' % lg,
+                            {'stream': 'fair presentations', 'variant': 'fair-base', 'kripke': kd_json(c['kd']), 'F': c['F'], 'presentation': c['variants'][0][1],
+                             'queries': [[l, g, fstr(g)] for l, g in c['queries']], 'base_queries': [[l, g, fstr(g)] for l, g in c['queries']], 'X': c['X'],
+                             'detail': {'logic': lg, 'formula': fstr(f), 'impl': a, 'model': mccheck.model_obs(o)}})
+    return nb
+
+
+def fair_states_hist(cases):
+    h = {}
+    for c in cases:
+        K = kd_py(c['kd'])
+        r = call(lambda: len(K.get_fair_states([set(P) for P in c['F']])))
+        k = str(r[1]) if r[0] == 'ok' else r[1]
+        h[k] = h.get(k, 0) + 1
+    return dict(sorted(h.items()))
 
 
 def run(R):
@@ -527,10 +755,28 @@ def run(R):
               'fresh interpreters under k PYTHONHASHSEEDs (3 quick / 16 thorough) with str/tuple/int states, multi-character atoms, set containers. '
               'Compared: every variant = base answer under the correspondence (implementation alone), every variant = proved model on that very '
               'presentation, compute_SCCs / reachable sets as sets of sets. non-trivial = answer neither empty nor all states and at least one variant '
-              'whose observed iteration orders (states, successor sets, label sets) differ from the base; distinct by (K, logic, f) TEXT RENAMING (model-free): atoms renamed to names that need double quotes in the concrete syntax (leading / trailing / inner blanks, tabs, punctuation, digit first, non-ASCII; pairs that differ only in blanks) consistently in K and in the formula TEXT: object, text, renamed object and renamed text must give one answer.')
+              'whose observed iteration orders (states, successor sets, label sets) differ from the base; distinct by (K, logic, f) TEXT RENAMING (model-free): atoms renamed to names that need double quotes in the concrete syntax (leading / trailing / inner blanks, tabs, punctuation, digit first, non-ASCII; pairs that differ only in blanks) consistently in K and in the formula TEXT: object, text, renamed object and renamed text must give one answer; '
+              'the same with names that ARE identifiers and have a reserved spelling (not or and true false A E X F G U R) glued to head / tail / middle, mostly next to '
+              'the other atom of the renaming (notq next to q, Ap next to p, pUq, orand, Not, TRUE), written bare so that they pass the lexer (one parser object per logic, every 8th case modelcheck\'s own). '
+              'CONTAINERS: variant perm-varied-containers and ~35% of the state-renaming variants hand S, S0, R and each label collection to Kripke in a container type of its own '
+              '(list, set, tuple, frozenset, dict keys view, iterator, generator, deque; edges as tuples or lists; L dict / OrderedDict / defaultdict); for every presentation the live object '
+              'must store exactly the given states, initial states, transitions and label sets (else reported as a build difference). '
+              'FAIRNESS UNDER PRESENTATIONS (model-free, variant = base; base also = faithful fair model): 70 quick / 600 thorough structures of 2-5 states with a self loop on every state '
+              '(so that KF-C15-a cannot make the coded fair set order-dependent), F of 0-2 constraints renamed along with the states; variants: permutation with set / varied containers, states renamed to '
+              'ints, strings, tuples, mixed unorderable types, plain objects, names that print alike, an unreachable extension with mixed / string names, and (first 25 / 200 cases) '
+              'str / mixed / tuple names with set containers in the fresh interpreters under every hash seed; non-trivial = base answer neither empty nor everything. '
+              'LARGE UNREACHABLE EXTENSIONS (model-free): 8 quick / 40 thorough structures of 2-4 states plus recursion-limit + 300..500 (thorough ..1000) new states that no old state reaches: '
+              'chain into the old states, ring with an exit into them, chain of self-looping states, chain apart, fan; int / str / tuple names; formulas with <= 2 temporal operators; '
+              'answers, compute_SCCs and reachable sets restricted to the old states must equal the base.')
+    ts = [time.time()]
     fair_atom_renaming(R)
+    ts.append(time.time())
     inplace_renaming(R)
+    ts.append(time.time())
     text_renaming(R)
+    ts.append(time.time())
+    fcases = fair_plan(R)
+    bcases = big_plan(R)
     rng = R.rng
     th = R.thorough
     base = gen_base(R, 5000 if th else 500)
@@ -550,15 +796,22 @@ def run(R):
     # ---------------- in-process observations (fork pool; hash seed of this interpreter)
     t0 = time.time()
     flat = [job_case(v, c['X']) for c in plan for v in c['variants']]
-    obs = pmap_chunks(obs_chunk, flat, n_jobs(), per=20)
+    fflat = [job_case_F(v, c['X'], c['F']) for c in fcases for v in c['variants']]
+    obs = pmap_chunks(obs_chunk, flat + fflat, n_jobs(), per=20)
     it = iter(obs)
-    for c in plan:
+    for c in plan + fcases:
         c['obs'] = [next(it) for _ in c['variants']]
+    t1 = time.time()
+    bobs = iter(pmap_chunks(obs_chunk_plain, [job_case(v, c['X']) for c in bcases for v in c['variants']], n_jobs(), per=1))
+    for c in bcases:
+        c['obs'] = [next(bobs) for _ in c['variants']]
+    t_big = time.time() - t1
     t1 = time.time()
 
     # ---------------- fresh interpreters, one per hash seed, all hash cases batched into one launch each
     hflat = [job_case(v, c['X']) for c in plan for v in c['hvariants']]
-    hjob = {'cases': hflat, 'internals': True}
+    fhflat = [job_case_F(v, c['X'], c['F']) for c in fcases for v in c['hvariants']]
+    hjob = {'cases': hflat + fhflat, 'internals': True}
     from concurrent.futures import ThreadPoolExecutor
     with ThreadPoolExecutor(max_workers=min(len(seeds), n_jobs())) as ex:
         hres = list(ex.map(lambda s: run_fresh_interpreter(s, hjob), seeds))
@@ -572,7 +825,25 @@ def run(R):
         for _ in c['hvariants']:
             c['hobs'].append([r['observations'][pos] for r in hres])
             pos += 1
+    for c in fcases:
+        c['hobs'] = []
+        for _ in c['hvariants']:
+            c['hobs'].append([r['observations'][pos] for r in hres])
+            pos += 1
     t2 = time.time()
+
+    # ---------------- fairness under presentations, large unreachable extensions (variant = base)
+    nf = judge_variants(R, 'fair presentations', fcases, seeds)
+    nfm = fair_base_vs_model(R, fcases)
+    R.cov['fair_presentations'] = {'cases': len(fcases), 'presentations': len(fflat), 'of_which_also_under_hash_seeds': len(fhflat), 'differences': nf,
+                                   'base_differs_from_fair_model': nfm, 'number_of_fair_states(histogram)': fair_states_hist(fcases),
+                                   'constraints_per_case': {str(k): sum(1 for c in fcases if len(c['F']) == k) for k in (0, 1, 2)}}
+    nbg = judge_variants(R, 'big unreachable', bcases)
+    R.cov['large_unreachable_extensions'] = {'cases': len(bcases), 'differences': nbg, 'recursion_limit': sys.getrecursionlimit(),
+                                             'shapes': {sh: sum(1 for c in bcases if c['shape'] == sh) for sh in sorted({c['shape'] for c in bcases})},
+                                             'states_added(min,max)': [min(c['added'] for c in bcases), max(c['added'] for c in bcases)], 'wall_s': round(t_big, 1)}
+    R.cov['timing_model_free_streams_s'] = {'fair_atom_renaming': round(ts[1] - ts[0], 1), 'inplace_renaming': round(ts[2] - ts[1], 1), 'text_renaming': round(ts[3] - ts[2], 1)}
+    t2b = time.time()
 
     # ---------------- model on every observed presentation
     cmds, slots = [], []
@@ -597,7 +868,7 @@ def run(R):
     t3 = time.time()
     R.cov['timing_s'] = {'in-process variants (pool of %d)' % n_jobs(): round(t1 - t0, 1),
                          'fresh interpreters (%d seeds x %d presentations)' % (len(seeds), len(hflat)): round(t2 - t1, 1),
-                         'model (%d commands)' % len(cmds): round(t3 - t2, 1)}
+                         'model (%d commands)' % len(cmds): round(t3 - t2b, 1), 'fair + large-extension judging': round(t2b - t2, 1)}
 
     def model_view(start, k):
         o = outs[start:start + k]
@@ -689,7 +960,7 @@ def run(R):
                 if nt_logic[lg] <= 2:
                     R.sample({'kripke': kd_json(c['kd']), 'logic': lg, 'formula': fstr(f), 'answer': a[1],
                               'variants_with_different_observed_order': differs_count[ci],
-                              'example_variant': {'tag': c['variants'][5][0], 'S': c['variants'][5][1]['S'], 'states_order_seen': c['obs'][5].get('states_order')}})
+                              'example_variant': {'tag': c['variants'][6][0], 'S': c['variants'][6][1]['S'], 'states_order_seen': c['obs'][6].get('states_order')}})
     R.cov['nontrivial_by_logic'] = nt_logic
     # the naming streams: did they produce what they are for?
     clash = {'presentations': 0, 'with_two_states_printing_alike': 0, 'of_which_one_left_out_of_L_and_the_other_labelled': 0}
@@ -728,7 +999,7 @@ def run(R):
                 'answer-depends-on-presentation': 'modelcheck answer changes with the presentation',
                 'graph-vs-model': 'compute_SCCs / get_reachable_set_from differ from the proved model on one presentation',
                 'graph-depends-on-presentation': 'compute_SCCs / get_reachable_set_from change with the presentation',
-                'build': 'Kripke(...) fails on one presentation of a structure that builds in the base presentation'}[d['kind']]
+                'build': 'Kripke(...) fails on, or stores something else than, one presentation of a structure that builds in the base presentation'}[d['kind']]
         R.violation('%s [%s] %s' % (what, d['variant'], json.dumps(d['detail'], default=str)[:300]), d)
     if len(bad) > 20:
         R.cov['further_failing_instances_not_written'] = len(bad) - 20
@@ -760,8 +1031,9 @@ def replay(R, data):
         sigma = d['sigma']
         kd2 = rename_atoms_kd(kd, sigma)
         lg = d['logic']
-        ans = [impl_mc(lg, kd_py(kd), f), impl_mc(lg, kd_py(kd), d['text'], as_text=True),
-               impl_mc(lg, kd_py(kd2), rename_formula(f, sigma)), impl_mc(lg, kd_py(kd2), d['text_renamed'], as_text=True)]
+        ps = shared_parser(lg) if d.get('shared_parser') else None
+        ans = [impl_mc(lg, kd_py(kd), f), impl_mc(lg, kd_py(kd), d['text'], as_text=True, parser=ps),
+               impl_mc(lg, kd_py(kd2), rename_formula(f, sigma)), impl_mc(lg, kd_py(kd2), d['text_renamed'], as_text=True, parser=ps)]
         for w, a in zip(['object', 'text %r' % d['text'], 'renamed object', 'renamed text %r' % d['text_renamed']], ans):
             print('%-40s %s' % (w, a))
         if any(tuple(a) != tuple(ans[0]) for a in ans):
@@ -790,38 +1062,60 @@ def replay(R, data):
     bq = [(lg, detuple(f)) for lg, f, _ in d['base_queries']]
     qs = [(lg, detuple(f)) for lg, f, _ in d['queries']]
     X = d['X']
+    with_model = d.get('stream') not in ('fair presentations', 'big unreachable')      # those two streams are variant = base only
+    F = d.get('F')
     m = re.search(r'seed (\d+)', d['variant'])
     names = {b: s for s, b in d['presentation']['back']}
-    job = {'cases': [{'pres': d['presentation'], 'queries': [[lg, f] for lg, f in qs], 'X': [names[x] for x in X]}], 'internals': False}
+    case = {'pres': d['presentation'], 'queries': [[lg, f] for lg, f in qs], 'X': [names[x] for x in X]}
+    if F is not None:
+        case['F'] = [[names[x] for x in P] for P in F]
+    job = {'cases': [case], 'internals': False}
     if m:
         o = run_fresh_interpreter(int(m.group(1)), job)['observations'][0]
     else:
         o = W.observe_job(job)[0]
-    b = W.observe(basep, bq, X)
+    b = W.observe(basep, bq, X, F=F)
+    big = len(d['presentation']['back']) > 50
+    short = (lambda x: str(x)[:300] + (' ...' if len(str(x)) > 300 else '')) if big else (lambda x: x)
     print('variant  :', d['variant'])
-    print('observed orders:', o.get('states_order'), o.get('succ_order'), o.get('label_order'))
+    if F is not None:
+        print('F        :', F)
+    if not big:
+        print('observed orders:', o.get('states_order'), o.get('succ_order'), o.get('label_order'))
     if o['build'][0] != 'ok':
         print('build    :', o['build'])
-        R.violation('replayed: Kripke(...) fails on this presentation', d)
+        R.violation('replayed: Kripke(...) fails on (or stores something else than) this presentation', d)
         return
-    outs = model_batch(model_cmds_for(o, qs, X))
+    outs = model_batch(model_cmds_for(o, qs, X)) if with_model else None
     failed = failed_base = False
-    restrict = list(kd['S']) if d['variant'].startswith('unreachable-added') else None
+    restrict = list(kd['S']) if 'unreachable-added' in d['variant'] else None
     for qi, (lg, f) in enumerate(qs):
-        mo = model_obs(outs[qi])
         a = (o['answers'][qi][0], o['answers'][qi][1])
         print('%-5s %s' % (lg, fstr(f)))
-        print('    this presentation :', a)
+        print('    this presentation :', short(a))
         print('    base presentation :', tuple(b['answers'][qi]))
-        print('    model (this pres.):', mo)
-        if a != mo:
-            failed = True
+        if with_model:
+            mo = model_obs(outs[qi])
+            print('    model (this pres.):', mo)
+            if a != mo:
+                failed = True
         if restrict_ans(a, restrict) != (b['answers'][qi][0], b['answers'][qi][1]):
             failed_base = True
-    print('scc      :', o['scc'], ' model:', sorted(sorted(ints(cc)) for cc in outs[-2]), ' base:', b['scc'])
-    print('reach    :', o['reach'], ' model:', outs[-1], ' base:', b['reach'])
-    if (o['scc'][0], o['scc'][1]) != ('ok', sorted(sorted(ints(cc)) for cc in outs[-2])):
-        failed = True
+    if with_model:
+        print('scc      :', o['scc'], ' model:', sorted(sorted(ints(cc)) for cc in outs[-2]), ' base:', b['scc'])
+        print('reach    :', o['reach'], ' model:', outs[-1], ' base:', b['reach'])
+        if (o['scc'][0], o['scc'][1]) != ('ok', sorted(sorted(ints(cc)) for cc in outs[-2])):
+            failed = True
+    else:
+        print('scc      :', short(o['scc']), ' base:', b['scc'])
+        print('reach    :', short(o['reach']), ' base:', b['reach'])
+        if d['variant'] == 'fair-base':
+            import mccheck
+            for qi, (lg, f) in enumerate(qs):
+                mo = mccheck.model_obs(model_batch([mccheck.model_cmd(lg, kd_py(kd), f, F)])[0])
+                print('    faithful fair model, %-5s %s : %s' % (lg, fstr(f), mo))
+                if mo != (b['answers'][qi][0], b['answers'][qi][1]):
+                    failed = True
     if restrict_scc((o['scc'][0], o['scc'][1]), restrict) != (b['scc'][0], b['scc'][1]) or restrict_ans(o['reach'], restrict) != (b['reach'][0], b['reach'][1]):
         failed_base = True
     if failed:
